@@ -177,4 +177,52 @@ theorem check_translator_eq (x : Ext) (m : Meta) (tmpl : Bool) (out : List TagCa
   by_cases p1 : vs.length > 1 <;> by_cases p2 : vs.length = 0 <;> by_cases r1 : rs.length > 1 <;> by_cases r2 : rs.length = 0 <;>
     (try simp only [p1, p2, r1, r2, if_true, if_false]) <;> simp_all [tag, List.append_assoc]
 
+/-! ### `check_comments` -/
+
+theorem patternAt_1 (db : UDB) (prev : Option Char) (rest : Str) :
+    HdrPy.patternAt db "\\bPACKAGE package\\b".toList prev rest = wordLit db "PACKAGE package".toList prev rest := by
+  unfold HdrPy.patternAt; rw [if_pos rfl]
+theorem patternAt_2 (db : UDB) (prev : Option Char) (rest : Str) :
+    HdrPy.patternAt db "\\bCopyright \\S+ YEAR\\b".toList prev rest = copyrightYear db prev rest := by
+  unfold HdrPy.patternAt; rw [if_neg (by decide), if_pos rfl]
+theorem patternAt_3 (db : UDB) (prev : Option Char) (rest : Str) :
+    HdrPy.patternAt db "\\bTHE PACKAGE'S COPYRIGHT HOLDER\\b".toList prev rest = wordLit db "THE PACKAGE'S COPYRIGHT HOLDER".toList prev rest := by
+  unfold HdrPy.patternAt; rw [if_neg (by decide), if_neg (by decide), if_pos rfl]
+theorem patternAt_4 (db : UDB) (prev : Option Char) (rest : Str) :
+    HdrPy.patternAt db "\\bFIRST AUTHOR\\b".toList prev rest = wordLit db "FIRST AUTHOR".toList prev rest := by
+  unfold HdrPy.patternAt; rw [if_neg (by decide), if_neg (by decide), if_neg (by decide), if_pos rfl]
+theorem patternAt_5 (db : UDB) (prev : Option Char) (rest : Str) :
+    HdrPy.patternAt db "<EMAIL@ADDRESS>".toList prev rest = plainLit "<EMAIL@ADDRESS>".toList prev rest := by
+  unfold HdrPy.patternAt; rw [if_neg (by decide), if_neg (by decide), if_neg (by decide), if_neg (by decide), if_pos rfl]
+theorem patternAt_6 (db : UDB) (prev : Option Char) (rest : Str) :
+    HdrPy.patternAt db "(?<=>), YEAR\\b".toList prev rest = commaYear db prev rest := by
+  unfold HdrPy.patternAt; rw [if_neg (by decide), if_neg (by decide), if_neg (by decide), if_neg (by decide), if_neg (by decide), if_pos rfl]
+
+theorem commentLineHit_eta (db : UDB) (tmpl : Bool) (line : Str) :
+    commentLineHit db tmpl line = anyPos (fun p r => commentHit db tmpl p r) none line := rfl
+
+/-- a loop that cannot fail and emits `f x` per element, `f` given as an optional tag call -/
+theorem forEach_filterMap {α : Type} (f : α → Option TagCall) (body : α → List TagCall → Except Py.Exc (List TagCall))
+    (hb : ∀ x out, body x out = .ok (out ++ (f x).toList)) (xs : List α) (out : List TagCall) :
+    PyKit.forEach xs body out = .ok (out ++ xs.filterMap f) := by
+  induction xs generalizing out with
+  | nil => simp [PyKit.forEach]
+  | cons x xs ih =>
+    simp only [PyKit.forEach, hb, ih, List.filterMap_cons]
+    cases f x <;> simp [List.append_assoc]
+
+theorem check_comments_eq (x : Ext) (tmpl : Bool) (header : Str) (out : List TagCall) :
+    HdrChk.check_comments x tmpl header out = .ok (out ++ checkComments x.db tmpl header) := by
+  unfold_generated_hdrchk
+  simp only [ite_ok, checkComments, HdrPy.splitlines]
+  rw [forEach_filterMap (fun line => if commentLineHit x.db tmpl line then some (tag "boilerplate-in-initial-comments" [sx line]) else none) _ ?hb]
+  case hb =>
+    intro line out
+    simp only [HdrPy.searchAlt, commentLineHit_eta]
+    cases tmpl <;>
+      simp only [Bool.not_false, Bool.not_true, Bool.false_eq_true, if_true, if_false, List.cons_append, List.nil_append, List.any_cons, List.any_nil,
+        List.any_append, patternAt_1, patternAt_2, patternAt_3, patternAt_4, patternAt_5, patternAt_6, commentHit, Bool.or_false, Bool.true_and,
+        Bool.false_and, Bool.or_assoc, Bool.or_comm, Bool.or_left_comm] <;>
+      (split <;> simp_all [tag, sx])
+
 end I18n.Hdr.Gen
